@@ -9,6 +9,7 @@ import GldapModel.Runtime.ConnLoop
 import GldapModel.Directory.Store
 import GldapModel.Spec.ClientEncode
 import GldapModel.Gldap.Session
+import GldapModel.Directory.BindSession
 /-! `gmodel`: one line in, one line out. The Go harness feeds the same cases to the real
     gldap and to this driver and diffs the two output streams. -/
 open Ber Gldap Driver
@@ -385,7 +386,7 @@ def renderEnding : Session.Ending → String
 /-- `session <lock|pipe> routes=.. scripts=.. filters=.. in=<hex>`: the whole conversation of one connection -/
 def doSession (mode : String) (regs : List (Reg Nat)) (scripts : List (List Session.RespSpec))
     (ftab : List (Bytes × Option Bytes)) (input : Bytes) : String :=
-  let cfg : Session.Cfg := { regs := regs, script := fun k => scripts.getD k [] }
+  let cfg : Session.Cfg := { regs := regs, script := fun k _ => scripts.getD k [] }
   let run (ext) : List Bytes × Session.Ending × List (Nat × Int) :=
     let env : Env := { ext := ext, decompile := fun n => (ftab.find? (fun e => e.1 == ser n)).bind (·.2) }
     let fuel := input.length + 1
@@ -465,6 +466,17 @@ def handle (line : String) : String :=
       (match parseRegs (splitNE r ";"), parseScripts sc, parseFilterTable ft with
        | some regs, some scripts, some ftab => doSession mode regs scripts ftab input
        | _, _, _ => "bad-input")
+    | _, _, _, _ => "bad-input"
+  | ["tdbindwire", a, c, u, inp] =>
+    match (stripPrefix a "anon=").bind parseBool, (stripPrefix c "ctl=").bind parseBool, (stripPrefix u "users=").bind parseEntries,
+          (stripPrefix inp "in=").bind unhex with
+    | some a, some c, some us, some input =>
+      let dctls : List Control := if c then [.str [49, 46, 50, 46, 51, 46, 52] false [118]] else []
+      let run (ext) : List Bytes × Session.Ending :=
+        let env : Env := { ext := ext, decompile := fun _ => none }
+        Session.session env Generated.refusalTable Generated.guards (Directory.bindCfg us a dctls) (input.length + 1) input
+      if run extTrue != run extFalse then "unmodelled" else
+      s!"frames={join "," ((run extTrue).1.map hex)}"
     | _, _, _, _ => "bad-input"
   | ["behera", g, e, c] =>
     match parseOptNat g, parseOptNat e, parseOptNat c with
